@@ -20,14 +20,19 @@ RULE = ("instantiation trees: depth <= 3, 1-4 construction steps per node, repea
         "(thorough: 200 clocks).  distinct_nontrivial = designs with >= 1 instance whose outputs took >= 4 distinct defined values.")
 ASSUMPTIONS = ["vsim executes the emitted VHDL faithfully", "the flat rendering calls the same body functions with the same "
                "objects, so it is the 'logic placed inline' of the property"]
-REQUIRE = {'quick': {'instances': 300, 'output_comparisons': 20000, 'portmaps_checked': 300, 'interfaces_checked': 300},
-           'thorough': {'instances': 8000, 'output_comparisons': 1000000, 'portmaps_checked': 8000, 'interfaces_checked': 8000}}
+REQUIRE = {'quick': {'arrelem_designs': 20, 'instances': 300, 'output_comparisons': 20000, 'portmaps_checked': 300, 'interfaces_checked': 300},
+           'thorough': {'arrelem_designs': 100, 'instances': 8000, 'output_comparisons': 1000000, 'portmaps_checked': 8000, 'interfaces_checked': 8000}}
 
 
 def gen_cases(tier, seed):
     n = 160 if tier == 'quick' else 4000
     cases = [{'k': 'inout', 'f': f, 'root': root, 'view': view, 'slc': slc} for f in ('u', 's', 'bv') for root in ('u', 's', 'bv')
              for view in ('unsigned', 'signed', 'bitvector', None) for slc in (False, True)]
+    # elements of Array signals (and typed views of them) as actuals of input and output formals
+    cases += [{'k': 'arrelem', 'e_in': ei, 'v_in': vi, 'e_out': eo, 'v_out': vo, 'ix': (len(cases) + k) % 2}
+              for k, (ei, vi, eo, vo) in enumerate((ei, vi, eo, vo) for ei in ('u', 's', 'bv') for vi in ('unsigned', 'signed', 'bitvector', None)
+                                                   for eo in ('u', 's', 'bv') for vo in ('unsigned', 'signed', 'bitvector', None))
+              if tier == 'thorough' or (k + seed) % 4 == 0]
     for i in range(n):
         cases.append({'seed': seed * 100003 + i, 'depth': 1 + i % 3, 'style': 'noviews' if i % 5 == 0 else 'mixed',
                       'clocks': 60 if tier == 'quick' else 200})
@@ -239,9 +244,105 @@ class {cname}(Entity):
     return result(sig=digest('inout', case) if not viol else None, viol=viol, cnt=dict(cnt))
 
 
+def run_arrelem(case):
+    """an element of an Array signal (optionally through a typed view) as actual of an input and of an output formal;
+    hierarchical against inlined rendering, every input value, plus the conformance checker on the port map"""
+    cnt = Counter()
+    VK = {'unsigned': 'u', 'signed': 's', 'bitvector': 'bv'}
+    fi = VK.get(case['v_in'], case['e_in'])        # CoHDL type of the actuals = type of the formals
+    fo = VK.get(case['v_out'], case['e_out'])
+    _io[0] += 1
+    k = _io[0]
+    ix = case['ix']
+    a_in = f"src[{ix}]" + (f".{case['v_in']}" if case['v_in'] else "")
+    a_out = f"dst[{1 - ix}]" + (f".{case['v_out']}" if case['v_out'] else "")
+    body = "y.next = (a.bitvector.unsigned + 3).bitvector" + {'u': '.unsigned', 's': '.signed', 'bv': ''}[fo]
+    src = hiergen.HEADER + "from cohdl import Array\n" + f"""
+def leaf_body{k}(a, y):
+    @std.concurrent
+    def logic():
+        {body}
+
+class Leaf{k}(Entity):
+    a = Port.input({KT[fi]}[4])
+    y = Port.output({KT[fo]}[4])
+    def architecture(self):
+        leaf_body{k}(self.a, self.y)
+
+def top_body{k}(M, d, q):
+    src = Signal[Array[{KT[case['e_in']]}[4], 2]](name='src')
+    dst = Signal[Array[{KT[case['e_out']]}[4], 2]](name='dst')
+    @std.concurrent
+    def drv():
+        src[{ix}].next = d{ {'u': '.unsigned', 's': '.signed', 'bv': ''}[case['e_in']] }
+    if M == 'h':
+        Leaf{k}(a={a_in}, y={a_out})
+    else:
+        leaf_body{k}({a_in}, {a_out})
+    @std.concurrent
+    def out():
+        q.next = dst[{1 - ix}].bitvector
+
+class AH{k}(Entity):
+    d = Port.input(BitVector[4])
+    q = Port.output(BitVector[4])
+    def architecture(self):
+        top_body{k}('h', self.d, self.q)
+
+class AF{k}(Entity):
+    d = Port.input(BitVector[4])
+    q = Port.output(BitVector[4])
+    def architecture(self):
+        top_body{k}('f', self.d, self.q)
+"""
+    mod = load_source(src, 'c12ae')
+    comps, rej = {}, {}
+    try:
+        for T in (f'AH{k}', f'AF{k}'):
+            try:
+                comps[T[:2]] = compile_top(getattr(mod, T))
+            except Rejected as r:
+                rej[T[:2]] = r
+    finally:
+        unload(mod)
+    if rej:
+        if len(rej) == 2:
+            cnt['arrelem_rejected_both'] += 1
+            cnt['arrelem_rejected_both:' + rej['AH'].msg[:50].replace('\n', ' ')] += 1
+            return result(cnt=dict(cnt))
+        T = next(iter(rej))
+        return result(viol=[violation('accepted-only-one-rendering', f"array element actual {a_in} / {a_out}: the {'hierarchical' if T == 'AH' else 'flat'} rendering "
+                                      f"is rejected ({rej[T].etype}: {rej[T].msg[:200]}) while the other one compiles", source=src)], cnt=dict(cnt))
+    viol = []
+    try:
+        sh = comps['AH'].sim(init={'d': 0})
+        sf = comps['AF'].sim(init={'d': 0})
+    except Unsupported as u:
+        return result(cnt={'vsim_unsupported': 1}, inconclusive=f"vsim unsupported: {u}")
+    bad = [i for i in sh.issues if i[0] not in ('unused',) and i[0] not in {j[0] for j in sf.issues}]
+    if bad:
+        viol.append(violation('vhdl-issue-only-in-hierarchical:' + bad[0][0], f"array element actual {a_in} / {a_out}: the conformance checker reports "
+                              f"{bad[:3]} for the hierarchical design", source=src, vhdl=comps['AH'].text))
+    for v in range(16):
+        sh.set('d', v); sf.set('d', v)
+        sh.settle(); sf.settle()
+        a, b = sh.get('q'), sf.get('q')
+        cnt['output_comparisons'] += 1
+        cnt['arrelem_comparisons'] += 1
+        if fmt(a) != fmt(b) or a != (v + 3) % 16:
+            viol.append(violation('hier-flat-differ', f"array element actual {a_in} / {a_out}, d={v}: hierarchical {fmt(a)}, flat {fmt(b)}, "
+                                  f"expected {(v + 3) % 16}", source=src, vhdl=comps['AH'].text, vhdl_flat=comps['AF'].text))
+            break
+    cnt['instances'] += 1
+    cnt['arrelem_designs'] += 1
+    return result(sig=digest('arrelem', case) if not viol else None, viol=viol, cnt=dict(cnt))
+
+
 def run_case(case):
     if case.get('k') == 'inout':
         return run_inout(case)
+    if case.get('k') == 'arrelem':
+        return run_arrelem(case)
     cnt = Counter()
     rnd = random.Random(case['seed'])
     g, top = hiergen.generate(case['seed'], max_depth=case['depth'], style=case['style'])
